@@ -455,9 +455,9 @@ unsafe fn clear_cache(start: *mut u8, end: *mut u8) {
 
     #[cfg(target_os = "macos")]
     {
-        // The cache is invalidated in patch_function.
-        let _ = start;
-        let _ = end;
+        // patch_function invalidates the patched entry itself; code written anywhere else
+        // (the trampoline in the JIT mapping) has to be invalidated here.
+        sys_icache_invalidate(start, end.offset_from(start) as usize);
     }
 
     // On ARM64, explicitly synchronize the CPU pipeline.
